@@ -95,11 +95,27 @@ def run(chk, facts):
         conds = [n for n in walk(ut["body"]) if n.get("k") == "if" and "is_superset_of" in src(n["c"])]
         if len(conds) != 1:
             raise AnchorError(f"unify_type: {len(conds)} conditions mention is_superset_of")
-        from .common import disjuncts
+        from .common import disjuncts, fn_paths
         c = src(strip(conds[0]["c"])).replace(" ", "")
-        # the three alternatives, in any order
-        ok = disjuncts(conds[0]["c"]) == sorted(["l_ty.is_superset_of(r_ty,ctx,left.pos)?", "l_ty==&Name::any()", "r_ty==&Name::any()"]) \
-            and "unify_link(" in src(conds[0]["then"]) and "Err(" in src(conds[0]["else"])
+        # the three alternatives, in any order ..
+        ok = disjuncts(conds[0]["c"]) == sorted(["l_ty.is_superset_of(r_ty,ctx,left.pos)?", "l_ty==&Name::any()", "r_ty==&Name::any()"])
+        # .. and what they decide, on the enumerated paths: when the test fails the constraint is rejected, when it holds unification
+        # goes on (whether `unify_link` is called in the branch or after it)
+        from .common import _norm_cond
+        cn = _norm_cond(conds[0]["c"])
+        acc = rej = wrong = 0
+        for p_ in fn_paths(ut["body"]):
+            v = [pol for cc, pol in p_.conds if cc == cn or cc == c]
+            if not v or p_.result is None:
+                continue
+            r_ = src(strip(p_.result)).replace(" ", "")
+            if v[-1] and r_.startswith("unify_link("):
+                acc += 1
+            elif not v[-1] and r_.startswith("Err("):
+                rej += 1
+            else:
+                wrong += 1
+        ok = ok and acc >= 1 and rej >= 1 and wrong == 0
         chk.ob("R-C06-2", "unify_type:accept-condition", ok,
                "two types unify iff the parent accepts the child (Name::is_superset_of) or one side is Any" if ok else
                f"unify_type accepts two types under `{c[:140]}`: the comparison of declared and actual type is bypassed or reversed", loc)
